@@ -240,6 +240,34 @@ def consumers(ctx):
                 ctx.fail("writer:stale-target", f"{label}: slides read {t3} after re-opening, {texts} before", case)
 
 
+    # part names that differ only in CASE are different names to the part-name arithmetic (and to a zip archive): two image
+    # parts named that way keep their own bytes through load and save
+    for k in range(2 if ctx.quick else 10):
+        b1 = io.BytesIO(); Image.new("RGB", (3, 3), (200, 9, 9)).save(b1, "PNG")
+        b2 = io.BytesIO(); Image.new("RGB", (5, 2), (9, 9, 200)).save(b2, "PNG")
+        prs = Presentation()
+        sl = prs.slides.add_slide(prs.slide_layouts[6])
+        p1 = sl.shapes.add_picture(io.BytesIO(b1.getvalue()), 0, 0)
+        p2 = sl.shapes.add_picture(io.BytesIO(b2.getvalue()), 0, 0)
+        part2 = p2.part.related_part(p2._pic.blip_rId)
+        name1 = str(p1.part.related_part(p1._pic.blip_rId).partname)
+        twin = rng.choice([name1.replace("image", "IMAGE"), name1.replace("image", "Image"), name1.replace("/media/", "/MEDIA/"), name1[:-4] + ".PNG"])
+        part2.partname = PackURI(twin)
+        case = {"names": [name1, twin]}
+        ctx.case(key=("consumer-case-twin", k, twin)); ctx.count("consumer-case-twin-names")
+        try:
+            bb = io.BytesIO(); prs.save(bb)
+            p3 = Presentation(io.BytesIO(bb.getvalue()))
+            got = [sh.image.blob for sh in p3.slides[0].shapes]
+            b3 = io.BytesIO(); p3.save(b3)
+            got2 = [sh.image.blob for sh in Presentation(io.BytesIO(b3.getvalue())).slides[0].shapes]
+        except Exception as e:  # noqa
+            ctx.fail("case-twin:raises", f"a package with parts {name1} and {twin} raised {type(e).__name__}: {str(e)[:120]}", case)
+            continue
+        want = [b1.getvalue(), b2.getvalue()]
+        if got != want or got2 != want:
+            ctx.fail("case-twin:bytes", f"parts {name1} and {twin} (names that differ in case only): after load {'and a second save ' if got == want else ''}the pictures "
+                     f"show {'the same' if len(set(got2 if got == want else got)) == 1 else 'other'} bytes", case)
     # a main part directly at the package root (depth-1 part name, as some producers write): its relationships item is
     # /_rels/<name>.rels, its Targets are relative to "/"; load, save, re-open
     for k in range(3 if ctx.quick else 12):
